@@ -306,8 +306,11 @@ func allCombos() []Combo {
 	return out
 }
 
-// pickCombos chooses n distinct combos for a text: the two routes named in the
-// design's "aimed at" list are always present, the rest is drawn at random.
+// pickCombos chooses n distinct combos for a text. The two routes named in
+// the design's "aimed at" list (a unified request at level strong, a unified
+// request mixing the text with a write) and the query endpoint on a follower
+// are always present; the rest is drawn at random, the cheap local routes
+// somewhat more often than the ones that go through the log.
 func pickCombos(r *rand.Rand, n int) []Combo {
 	all := allCombos()
 	if n >= len(all) {
@@ -324,9 +327,12 @@ func pickCombos(r *rand.Rand, n int) []Combo {
 	add(Combo{"request", []string{"leader", "follower"}[r.IntN(2)], "strong", r.IntN(2) == 0})
 	add(Combo{"mixed", "leader", levels[r.IntN(5)], r.IntN(2) == 0})
 	add(Combo{[]string{"qget", "qpost"}[r.IntN(2)], "follower", levels[r.IntN(5)], r.IntN(2) == 0})
-	add(Combo{[]string{"qget", "qpost"}[r.IntN(2)], "leader", "strong", r.IntN(2) == 0})
 	for len(out) < n {
-		add(all[r.IntN(len(all))])
+		c := all[r.IntN(len(all))]
+		if c.EP == "mixed" && r.IntN(2) == 0 {
+			continue
+		}
+		add(c)
 	}
 	r.Shuffle(len(out), func(i, j int) { out[i], out[j] = out[j], out[i] })
 	return out
